@@ -250,6 +250,13 @@ def dealer(ctx) -> None:
     subs = [n for n in core.walk_local(fn.node) if isinstance(n, ast.Subscript) and core.src(n.value) == 'self._cache']
     ctx.check(bool(subs) and all(core.src(s.slice) == inst for s in subs), 'C16.dealer', fn, f'the executor cache is keyed by the requested instance only ({[core.src(s.slice) for s in subs]})', fn.node, key='dealer:key')
     gate = next((s for s in fn.body if isinstance(s, ast.If) and core.src(s.test) == f'{inst} not in self._cache'), None)
+    looked = None  # the local holding self._cache.get(instance), when the lookup is done once up front
+    if gate is None:
+        for k, s_ in enumerate(fn.body):
+            if isinstance(s_, ast.Assign) and len(s_.targets) == 1 and isinstance(s_.targets[0], ast.Name) and core.src(s_.value) in (f'self._cache.get({inst})', f'self._cache.get({inst}, None)'):
+                nxt = next((x for x in fn.body[k + 1:] if isinstance(x, ast.If)), None)
+                if nxt is not None and core.src(nxt.test) == f'{s_.targets[0].id} is None' and not any(isinstance(y, ast.Name) and y.id == s_.targets[0].id and isinstance(y.ctx, ast.Store) for x in fn.body[k + 1:fn.body.index(nxt)] for y in ast.walk(x)):
+                    gate, looked = nxt, s_.targets[0].id
     ctx.check(gate is not None, 'C16.dealer', fn, 'a new executor is spawned only for an unseen instance', fn.node, key='dealer:gate')
     if gate is not None:
         ctor = next((c for c in core.calls_in(gate) if (core.call_name(c) or '').endswith('Executor')), None)
@@ -257,7 +264,13 @@ def dealer(ctx) -> None:
         store = [s for s in gate.body if isinstance(s, ast.Assign) and isinstance(s.targets[0], ast.Subscript) and core.src(s.targets[0].value) == 'self._cache']
         ctx.check(len(store) == 1 and core.src(store[0].targets[0].slice) == inst, 'C16.dealer', fn, 'and cached under it', gate, key='dealer:store')
     sub = [c for c in core.calls_in(fn.node) if isinstance(c.func, ast.Attribute) and c.func.attr == 'apply']
-    ctx.check(len(sub) == 1 and core.src(sub[0].func.value) == f'self._cache[{inst}]' and [core.src(a) for a in sub[0].args] == ['entry'], 'C16.dealer', fn, "the caller's entry is submitted to the executor of its own instance", fn.node, key='dealer:submit')
+    own = len(sub) == 1 and core.src(sub[0].func.value) == f'self._cache[{inst}]'
+    if len(sub) == 1 and looked is not None and core.src(sub[0].func.value) == looked and gate is not None:
+        # the looked-up local: outside the gate it is the cached executor, inside it is re-bound to the one that is cached
+        rebinds = [a for a in ast.walk(fn.node) if isinstance(a, ast.Assign) and any(isinstance(t, ast.Name) and t.id == looked for t in a.targets) and core.src(a.value) != f'self._cache.get({inst})' and core.src(a.value) != f'self._cache.get({inst}, None)']
+        stored = [a for a in gate.body if isinstance(a, ast.Assign) and isinstance(a.targets[0], ast.Subscript) and core.src(a.targets[0].value) == 'self._cache' and core.src(a.value) == looked]
+        own = len(rebinds) == 1 and any(rebinds[0] is x for x in gate.body) and (core.call_name(rebinds[0].value) or '').endswith('Executor') and len(stored) == 1 and not gate.orelse
+    ctx.check(own and [core.src(a) for a in sub[0].args] == ['entry'], 'C16.dealer', fn, "the caller's entry is submitted to the executor of its own instance", fn.node, key='dealer:submit')
     eng = prog.func(f'{SERVICE}:Engine.apply')
     text = [core.src(s) for s in eng.body if not isinstance(s, ast.Expr)]
     want = [
